@@ -157,9 +157,12 @@ class Ctx:
         else:
             res["ok"] = ("Model checking completed. No error has been found." in out)
         if not res["ok"]:
-            tail = "\n".join(out.splitlines()[-60:])
-            raise MachineryError("TLC did not accept the specification %s (rc=%s):\n%s"
-                                 % (module, p.returncode, tail))
+            lines = out.splitlines()
+            first = next((i for i, l in enumerate(lines) if l.startswith("Error:") or "Exception" in l or "OutOfMemory" in l), None)
+            head = "\n".join(lines[first:first + 12]) + "\n...\n" if first is not None else ""
+            tail = "\n".join(lines[-40:])
+            raise MachineryError("TLC did not accept the specification %s (rc=%s):\n%s%s"
+                                 % (module, p.returncode, head, tail))
         with self.lock:
             self.states += res.get("distinct", 0)
             self.transitions += res.get("generated", 0)
